@@ -388,7 +388,10 @@ Definition step1 (w : world) (o : op) : res (world * list obs) :=
       end
       end
   | OpFree i =>
-      s <- need_sec el i ;; Ok (mkWorld (upd_sec el i (free_data s)), [])
+      match get_sec el i with
+      | None => Ok (w, [ObN T_ABSENT [i]])
+      | Some s => Ok (mkWorld (upd_sec el i (free_data s)), [])
+      end
   | OpStrAdd i str =>
       s <- need_sec el i ;;
       '(s1, idx) <- add_string junk0 (xe el) s (take_cstr str) ;;
@@ -441,7 +444,7 @@ Definition step1 (w : world) (o : op) : res (world * list obs) :=
       end
   | OpSegFree j =>
       match get_seg el j with
-      | None => Fault OobRead
+      | None => Ok (w, [ObN T_ABSENT [j]])
       | Some g => Ok (mkWorld (upd_seg el j (seg_free_data g)), [])
       end
   | OpObsAll =>
